@@ -631,7 +631,8 @@ class C2Profile(ConfigBlock):
                 for item in value:
                     if " " in item:
                         option, _, val = item.partition(" ")
-                        val = val[1:-1]
+                        # (as bytes, so that backslashes in the start address are escaped like in other list values)
+                        val = val[1:-1].encode()
                         if option == "CreateThread":
                             exec_options.set_option("createthread_special", val)
                         elif option == "CreateRemoteThread":
